@@ -191,3 +191,15 @@ Print Assumptions e2e_cli_run_by_size.
 Print Assumptions e2e_confined.
 Print Assumptions e2e_wf_descs_is_any.
 Print Assumptions e2e_headers_any.
+(* ---- 6. the member list of the bytes (P_MembersAll.v): plain iteration over archive_of ds
+   (any kind of source) yields exactly the described headers, in order ---- *)
+From Lhasa Require P_MembersAll.
+Theorem e2e_stream_headers : ltac:(let t := type of P_MembersAll.stream_headers_of_archive_of in exact t).
+Proof. exact P_MembersAll.stream_headers_of_archive_of. Qed.
+Theorem e2e_stream_headers_any : ltac:(let t := type of P_MembersAll.stream_headers_of_archive_any in exact t).
+Proof. exact P_MembersAll.stream_headers_of_archive_any. Qed.
+Theorem e2e_upcoming_stream_headers : ltac:(let t := type of P_MembersAll.upcoming_stream_headers in exact t).
+Proof. exact P_MembersAll.upcoming_stream_headers. Qed.
+Print Assumptions e2e_stream_headers.
+Print Assumptions e2e_stream_headers_any.
+Print Assumptions e2e_upcoming_stream_headers.
